@@ -1,0 +1,179 @@
+//go:build verif
+
+// Copyright Istio Authors
+//
+// Licensed under the Apache License, Version 2.0 (the "License");
+// you may not use this file except in compliance with the License.
+// You may obtain a copy of the License at
+//
+//     http://www.apache.org/licenses/LICENSE-2.0
+//
+// Unless required by applicable law or agreed to in writing, software
+// distributed under the License is distributed on an "AS IS" BASIS,
+// WITHOUT WARRANTIES OR CONDITIONS OF ANY KIND, either express or implied.
+// See the License for the specific language governing permissions and
+// limitations under the License.
+
+package xds
+
+import (
+	"istio.io/istio/pilot/pkg/model"
+	"istio.io/istio/pkg/verif"
+)
+
+// ---------------------------------------------------------------------------------------------
+// C02: the per-proxy push queue
+// ---------------------------------------------------------------------------------------------
+
+func pqPending(p *PushQueue, c *Connection) bool {
+	_, ok := p.pending[c]
+	return ok
+}
+
+func pqProcessing(p *PushQueue, c *Connection) bool {
+	_, ok := p.processing[c]
+	return ok
+}
+
+// pqOwed is the ghost view of the queue: the request that still has to be pushed to c (nil: none).
+func pqOwed(p *PushQueue, c *Connection) *model.PushRequest {
+	if pqPending(p, c) {
+		return p.pending[c]
+	}
+	if pqProcessing(p, c) {
+		return p.processing[c]
+	}
+	return nil
+}
+
+func pqQueued(p *PushQueue, c *Connection) bool {
+	return verif.Exists(func(i int) bool { return 0 <= i && i < len(p.queue) && p.queue[i] == c })
+}
+
+// pqInv is the representation invariant of PushQueue.
+func pqInv(p *PushQueue) bool {
+	return p != nil && p.pending != nil && p.processing != nil && !verif.Same(p.pending, p.processing) && p.cond != nil && p.cond.L != nil &&
+		// a connection is never pending and in flight at once; a pending entry always carries a request
+		verif.Forall(func(c *Connection) bool { return !pqPending(p, c) || (!pqProcessing(p, c) && p.pending[c] != nil) }) &&
+		// the queue holds exactly the pending connections, each once
+		verif.Forall(func(i int) bool { return !(0 <= i && i < len(p.queue)) || pqPending(p, p.queue[i]) }) &&
+		verif.Forall(func(i int) bool {
+			return verif.Forall(func(j int) bool { return !(0 <= i && i < j && j < len(p.queue)) || p.queue[i] != p.queue[j] })
+		}) &&
+		verif.Forall(func(c *Connection) bool { return !pqPending(p, c) || pqQueued(p, c) })
+}
+
+//verif:contract (*PushQueue).Enqueue
+//verif:prop C02
+func ctEnqueue(p *PushQueue, con *Connection, pushRequest *model.PushRequest) {
+	verif.Requires("queue-well-formed", pqInv(p))
+	verif.Requires("request-non-nil", pushRequest != nil)
+	p.Enqueue(con, pushRequest)
+	verif.Ensures("queue-well-formed", pqInv(p))
+	down := verif.Old(func() bool { return p.shuttingDown })
+	prev := verif.Old(func() *model.PushRequest { return pqOwed(p, con) })
+	verif.Ensures("shutdown-ignores", !down || verif.Forall(func(c *Connection) bool {
+		return pqOwed(p, c) == verif.Old(func() *model.PushRequest { return pqOwed(p, c) })
+	}))
+	// from the statement: a notification is carried into what is owed to the proxy; merging covers both
+	verif.Ensures("nothing-owed-before-takes-request", down || prev != nil || pqOwed(p, con) == pushRequest)
+	verif.Ensures("merged-covers-both", down || prev == nil || (verif.Fresh(pqOwed(p, con)) && model.VerifCovers(pqOwed(p, con), prev, pushRequest)))
+	verif.Ensures("registered", down || pqPending(p, con) || pqProcessing(p, con))
+	// "merging for one proxy never alters what another proxy is told"
+	verif.Ensures("others-owed-unchanged", verif.Forall(func(c *Connection) bool {
+		return c == con || pqOwed(p, c) == verif.Old(func() *model.PushRequest { return pqOwed(p, c) })
+	}))
+	verif.Ensures("no-existing-request-written", verif.Forall(func(r *model.PushRequest) bool {
+		return verif.Fresh(r) || r == nil || model.VerifRequestUntouched(r)
+	}))
+	// "at most one push in flight": enqueueing never starts or ends processing
+	verif.Ensures("in-flight-unchanged", verif.Forall(func(c *Connection) bool {
+		return pqProcessing(p, c) == verif.Old(func() bool { return pqProcessing(p, c) })
+	}))
+}
+
+//verif:contract (*PushQueue).Dequeue
+//verif:prop C02
+//verif:nonblocking
+func ctDequeue(p *PushQueue) {
+	verif.Requires("queue-well-formed", pqInv(p))
+	verif.Requires("no-wait-needed", len(p.queue) > 0 || p.shuttingDown)
+	con, request, shutdown := p.Dequeue()
+	verif.Ensures("queue-well-formed", pqInv(p))
+	verif.Ensures("shutdown-only-when-drained", !shutdown || (verif.Old(func() bool { return p.shuttingDown }) && verif.Old(func() int { return len(p.queue) }) == 0 && con == nil && request == nil))
+	// "a proxy has at most one push in flight"
+	verif.Ensures("not-already-in-flight", shutdown || !verif.Old(func() bool { return pqProcessing(p, con) }))
+	verif.Ensures("now-in-flight", shutdown || pqProcessing(p, con))
+	verif.Ensures("hands-out-what-was-owed", shutdown || (request != nil && request == verif.Old(func() *model.PushRequest { return pqOwed(p, con) })))
+	verif.Ensures("nothing-owed-after", shutdown || pqOwed(p, con) == nil)
+	verif.Ensures("others-unchanged", verif.Forall(func(c *Connection) bool {
+		return (!shutdown && c == con) || (pqOwed(p, c) == verif.Old(func() *model.PushRequest { return pqOwed(p, c) }) &&
+			pqProcessing(p, c) == verif.Old(func() bool { return pqProcessing(p, c) }))
+	}))
+	verif.Ensures("fifo", shutdown || con == verif.Old(func() *Connection { return p.queue[0] }))
+}
+
+// The blocking path of Dequeue: the monitor invariant holds whenever the lock is released, and the
+// result is well formed whatever other goroutines did while waiting.
+//
+//verif:monitor-invariant (*PushQueue).Dequeue
+func pqMonitor(p *PushQueue) bool { return pqInv(p) }
+
+//verif:lemma
+//verif:prop C02
+//verif:inline-target (*PushQueue).Dequeue
+func lemmaDequeueBlocking(p *PushQueue) {
+	verif.Requires("queue-well-formed", pqInv(p))
+	con, request, shutdown := p.Dequeue()
+	verif.Assert("queue-well-formed", pqInv(p))
+	verif.Assert("hands-out-a-request", shutdown || (request != nil && pqProcessing(p, con) && pqOwed(p, con) == nil))
+}
+
+//verif:invariant (*PushQueue).Dequeue 1
+func invDequeueWait(p *PushQueue) bool { return pqInv(p) }
+
+//verif:contract (*PushQueue).MarkDone
+//verif:prop C02
+func ctMarkDone(p *PushQueue, con *Connection) {
+	verif.Requires("queue-well-formed", pqInv(p))
+	p.MarkDone(con)
+	verif.Ensures("queue-well-formed", pqInv(p))
+	verif.Ensures("no-longer-in-flight", !pqProcessing(p, con))
+	// from the statement: "a notification arriving during that push is delivered afterwards"
+	verif.Ensures("nothing-lost", verif.Forall(func(c *Connection) bool {
+		return pqOwed(p, c) == verif.Old(func() *model.PushRequest { return pqOwed(p, c) })
+	}))
+	verif.Ensures("requeued-if-owed", verif.Old(func() *model.PushRequest { return pqOwed(p, con) }) == nil || (pqPending(p, con) && pqQueued(p, con)))
+	verif.Ensures("others-in-flight-unchanged", verif.Forall(func(c *Connection) bool {
+		return c == con || pqProcessing(p, c) == verif.Old(func() bool { return pqProcessing(p, c) })
+	}))
+}
+
+//verif:contract (*PushQueue).Pending
+//verif:prop C02
+func ctPending(p *PushQueue) {
+	verif.Requires("queue-well-formed", pqInv(p))
+	n := p.Pending()
+	verif.Ensures("is-queue-length", n == len(p.queue) && n >= 0)
+	verif.Ensures("queue-well-formed", pqInv(p))
+}
+
+//verif:contract (*PushQueue).ShutDown
+//verif:prop C02
+func ctShutDown(p *PushQueue) {
+	verif.Requires("queue-well-formed", pqInv(p))
+	p.ShutDown()
+	verif.Ensures("queue-well-formed", pqInv(p))
+	verif.Ensures("shutting-down", p.shuttingDown)
+	verif.Ensures("nothing-lost", verif.Forall(func(c *Connection) bool {
+		return pqOwed(p, c) == verif.Old(func() *model.PushRequest { return pqOwed(p, c) })
+	}))
+}
+
+//verif:contract NewPushQueue
+//verif:prop C02
+func ctNewPushQueue() {
+	p := NewPushQueue()
+	verif.Ensures("well-formed-and-empty", pqInv(p) && len(p.queue) == 0 && !p.shuttingDown && verif.Fresh(p))
+	verif.Ensures("nothing-owed", verif.Forall(func(c *Connection) bool { return pqOwed(p, c) == nil && !pqProcessing(p, c) }))
+}
